@@ -138,6 +138,16 @@ def run_case(case):
         return {"discard": "unmodelled"}
     except lang.RefError:
         return {"discard": "ref-error"}
+    # x | t with t the type x already has is x itself (one more name of the same wire)
+    for s in prog.stmts:
+        if isinstance(s, Decl) and s.name not in alias_of and isinstance(s.e, lang.Proj) and isinstance(s.e.e, Ref):
+            src = env.get(s.e.e.name)
+            tgt = s.e.ty
+            if isinstance(tgt, lang.TypeOf):
+                tv = env.get(tgt.name)
+                tgt = tv.ty if isinstance(tv, lang.SigV) else None
+            if isinstance(src, lang.SigV) and tgt is not None and src.ty == tgt and lang.known_type(tgt):
+                alias_of[s.name] = s.e.e.name
     circ.reset()
     if circ.settle() is None:
         return {"discard": "no-settle"}
@@ -256,6 +266,11 @@ def run_case(case):
         if known.active("call-result-aliases-input") and (mirrors_input(name) or (
                 name in decl_of and isinstance(decl_of[name].e, lang.Call) and any(isinstance(a, lang.Num) for a in decl_of[name].e.args))):
             excluded["F-call-alias"] = excluded.get("F-call-alias", 0) + 1
+            continue
+        if known.active("folded-constant-loses-name") and case.get("optimize", True) and mirrors_input(name):
+            # open finding F-folded-name: a call whose body degenerates, after inlining and constant propagation, to a
+            # copy of one of its arguments (const-true 'cond : value') is replaced by that argument's producer
+            excluded["F-folded-name"] = excluded.get("F-folded-name", 0) + 1
             continue
         if known.active("folded-constant-loses-name") and name not in input_names and (not depends_on_input(name) or looks_constant(name)):
             # open finding F-folded-name: a value the IR optimiser folds to a constant is emitted as 'arith_N_folded'
